@@ -11,7 +11,7 @@ from harness.runner import run_property
 from harness.trace import Run, result_str
 
 PROP = "C20"
-THEOREMS = ["Lbfgsb.C20.error_is_users", "Lbfgsb.C20.no_handler_reaches_user", "Lbfgsb.C20.no_residue"]
+THEOREMS = ["Lbfgsb.C20.error_is_users", "Lbfgsb.C20.handlers_transparent", "Lbfgsb.C20.no_swallowing_handler_reaches_user", "Lbfgsb.C20.no_residue"]
 MODULES = ["LbfgsbVerif.Props.C20"]
 KINDS = ["F", "G", "CB", "UPD", "SC", "FT", "GT"]
 
@@ -22,7 +22,25 @@ class Boom(Exception):
 
 def make_exc(cls: str, tag: str) -> BaseException:
     return {"custom": Boom, "TypeError": TypeError, "ValueError": ValueError, "IndexError": IndexError,
-            "AssertionError": AssertionError, "KeyboardInterrupt": KeyboardInterrupt}[cls](f"boom-{tag}")
+            "AssertionError": AssertionError, "KeyboardInterrupt": KeyboardInterrupt,
+            "StopIteration": StopIteration, "ArithmeticError": FloatingPointError}[cls](f"boom-{tag}")
+
+
+def _silent(*_a) -> None:
+    return None
+
+
+def global_state() -> Dict[str, Any]:
+    """Process-wide settings a run could leave altered (compared before/after a failing run)."""
+    import logging
+    import sys
+    import warnings
+    return {"numpy error handling (np.geterr)": dict(np.geterr()), "numpy error callback": repr(np.geterrcall()),
+            "warnings filters": [repr(f) for f in warnings.filters],
+            "numpy print options": repr(sorted((k, repr(v)) for k, v in np.get_printoptions().items())),
+            "logging.disable level": logging.root.manager.disable, "root logger level": logging.getLogger().level,
+            "root logger handlers": len(logging.getLogger().handlers), "lbfgsb logger handlers": len(logging.getLogger("lbfgsb").handlers),
+            "recursion limit": sys.getrecursionlimit()}
 
 
 def pre_build():
@@ -56,7 +74,21 @@ def evaluate(case: Dict[str, Any]) -> Dict[str, Any]:
         cls = r.choice(case["classes"])
         exc = make_exc(cls, f"{k}{i}")
         kw2, _, _ = shell.build(case)   # fresh closures (stateful callbacks / update functions)
+        # (the workers of the harness run with every numpy floating-point error ignored: give the failing run a distinctive,
+        # silent setting, so that a change to any value — 'ignore' included — shows)
+        err0, call0 = np.geterr(), np.geterrcall()
+        np.seterrcall(_silent)
+        np.seterr(divide="call", invalid="call", over="call", under="ignore")
+        g0 = global_state()
         run = Run(kw2, faults={(k, i): exc}).execute()
+        g1 = global_state()
+        np.seterr(**err0)
+        np.seterrcall(call0)
+        if g1 != g0:
+            changed = [n for n in g0 if g0[n] != g1[n]]
+            out["prop"].append({"what": f"after a failure of the user's {k} callable (call #{i}) process-wide settings are left altered: {changed}",
+                                "key": "", "detail": {"kind": k, "index": i, "changed": changed, "before": {n: g0[n] for n in changed},
+                                                      "after": {n: g1[n] for n in changed}}})
         out["tags"].append(f"fault_kind={k}")
         out["tags"].append(f"exc_class={cls}")
         if run.exc is not exc:
@@ -93,7 +125,7 @@ def features(r):
 
 def run(tier: str, seed: int) -> int:
     n, per = (40, 8) if tier == "quick" else (300, 25)
-    classes = ["custom", "TypeError", "ValueError", "IndexError", "AssertionError"] + (["KeyboardInterrupt"] if tier == "thorough" else [])
+    classes = ["custom", "TypeError", "ValueError", "IndexError", "AssertionError", "StopIteration", "ArithmeticError"] + (["KeyboardInterrupt"] if tier == "thorough" else [])
     cases = []
     for i in range(n):
         s = seed * 1_000_003 + i
@@ -108,7 +140,7 @@ def run(tier: str, seed: int) -> int:
         PROP, "harness.props.c20", THEOREMS, MODULES, cases, tier, seed, pre_build=pre_build, finalize=finalize,
         rule="for each explored run: one fault per (callable kind, call index) — every index when few, a sample otherwise — with a "
              "random exception class; the very exception object must reach the caller; the faulted run is replayed through the Lean "
-             "model (same error); then the identical fault-free call is compared with the baseline; non-trivial = more than 3 fault points",
+             "model (same error); process-wide settings (numpy error handling, warnings filters, logging, print options) are compared before and after the failing run; then the identical fault-free call is compared with the baseline; non-trivial = more than 3 fault points",
         assumptions=["exceptions are raised by the harness's wrappers around the user's callables"])
 
 
